@@ -43,6 +43,7 @@ type vfPipe struct {
 	onDeliver func(n int)    // after n bytes were granted
 	maxChunk  int            // 0: any; else cap of one delivery
 	noFrag    bool           // deliver everything the reader asks for
+	parkWrites bool          // every Write parks first (only where no other goroutine can want the writer's lock)
 }
 
 func (s *vfSim) newPipe(name string) *vfPipe {
@@ -203,6 +204,9 @@ func (p *vfPipe) Read(b []byte) (int, error) {
 
 func (p *vfPipe) Write(b []byte) (int, error) {
 	s := p.sim
+	if p.parkWrites {
+		s.park("n:"+p.name+":write", nil)
+	}
 	s.mu.Lock()
 	ord := p.writes
 	p.writes++
